@@ -295,6 +295,9 @@ def run(ctx, spec):
     if spec["shard"] < 6:
         ext = [1e-6, 1e-7, 1e-8, 1e-9, 1e-10, 3e-12][spec["shard"]]
         stability(ctx, aotools, int(rng.integers(6, 14)), 100.0 * ext, 0.2, 100.0, 2, rng, 200)
+    # turbulence so weak that the innovation variances are ~1e-10 rad^2 and below: they must still be the model's
+    psw = 0.05 * float(10 ** rng.uniform(-1, 1))
+    stability(ctx, aotools, int(rng.integers(5, 14)), psw, psw * float(10 ** rng.uniform(4.5, 7)), psw * float(10 ** rng.uniform(1.5, 3)), int(rng.integers(1, 3)), rng, 200)
     # one long run of nothing but add_row on a small screen (several hundred rows: block-wise bookkeeping must not repeat)
     history(ctx, aotools, "vk" if spec["shard"] % 2 else "fried", int(rng.integers(4, 9)), 0.05, 0.2, 20.0, 1, rng, 650, all_add=True)
     for s in range(spec["stab"]):
